@@ -526,6 +526,16 @@ func (e *Explorer) finish() {
 
 func (e *Explorer) runBound() bool {
 	stack := [][]int{{}}
+	if s := os.Getenv("VFX_ONLY_PREFIX"); s != "" {
+		// debugging aid: explore only below one prefix
+		var pre []int
+		for _, f := range strings.Split(s, ",") {
+			if v, err := strconv.Atoi(strings.TrimSpace(f)); err == nil {
+				pre = append(pre, v)
+			}
+		}
+		stack = [][]int{pre}
+	}
 	expect := []string{""}
 	for len(stack) > 0 {
 		prefix := stack[len(stack)-1]
@@ -785,6 +795,8 @@ func (e *Explorer) ReplayFile(path string, body func(c *Chooser)) (*Violation, *
 	e.body = body
 	e.curBound = -1
 	e.Trace = true
+	// a replay that does not fit is an error, never a verdict
+	e.Strict = true
 	x := e.RunOne(v.Choices, true)
 	return &v, x, nil
 }
